@@ -165,6 +165,13 @@ def gen_args(r, name, thorough=False):
         a1 = int_atom(r, 1100)
         if r.random() < 0.15:
             a1 = r.choice([b"", b"\x00", b"\x00\x00", b"\x01", b"\xff", b"\x02"])
+        if r.random() < 0.35:
+            # operand sizes exactly at the DISABLE_OP / LIMITS thresholds
+            def sized(n):
+                first = r.choice([0x00, 0x01, 0x7f, 0x80, 0xff])
+                return gen.Rep(first, n) if r.random() < 0.5 else bytes([first]) + bytes(r.getrandbits(8) for _ in range(n - 1))
+            a0 = sized(r.choice([2047, 2048, 2049, 2049, 255, 256, 257, 257]))
+            a1 = r.choice([b"\x03", b"\x00\x07", b"\xff\x7f\x01", sized(r.choice([1023, 1024, 1025])), int_atom(r, 40)])
         if r.random() < 0.04:
             a0 = big_rep(r, thorough)
         args = [a0, a1]
@@ -304,6 +311,8 @@ def is_heavy(name, args):
     return False
 
 
+SIZE_LIMITED = set(DIVS + ["op_modpow", "op_multiply"])
+
 FLAG_CHOICES = [0, 0, 0, NEW_COST_MODEL, NEW_COST_MODEL, LIMITS, DISABLE_OP, LIMITS | DISABLE_OP, MALACHITE,
                 MALACHITE | NEW_COST_MODEL, MALACHITE | LIMITS | DISABLE_OP, CANONICAL_INTS, ENABLE_GC,
                 LIMITS | NEW_COST_MODEL, DISABLE_OP | NEW_COST_MODEL,
@@ -317,6 +326,9 @@ def gen_items(r, names, n, thorough=False, flags=None):
         name = r.choice(names)
         args, term = gen_args(r, name, thorough)
         f = r.choice(flags or FLAG_CHOICES)
+        if flags is None and name in SIZE_LIMITED and r.random() < 0.5:
+            f = r.choice([LIMITS, DISABLE_OP, DISABLE_OP, LIMITS | DISABLE_OP, DISABLE_OP | MALACHITE, LIMITS | MALACHITE,
+                          DISABLE_OP | NEW_COST_MODEL, NO_UNKNOWN_OPS | LIMIT_HEAP | DISABLE_OP | CANONICAL_INTS | 0x10])
         if r.random() < 0.25:
             for (a2, t2, pre) in mutate_shape(r, name, args, term):
                 it = {"name": name, "flags": f, "args": a2, "term": t2, "heavy": is_heavy(name, a2)}
